@@ -4,6 +4,7 @@ import (
 	"bytes"
 	"errors"
 	"math/big"
+	"strings"
 
 	"github.com/dominant-strategies/go-quai/common"
 	"github.com/dominant-strategies/go-quai/core"
@@ -21,6 +22,8 @@ type Entry struct {
 	Fn     func(in []byte) (deep bool, err error) // deep: got past the outer unmarshal / first guard
 	Protos []proto.Message                        // valid messages whose mutations are fed to Fn
 	Seeds  [][]byte                               // valid raw inputs (for non-protobuf entries)
+	Format string                                 // "json" / "rlp" / "rlp1" (one type byte, then RLP): seeds also get per-node structured mutations
+	Quick  int                                    // protos that get the exhaustive one-field-at-a-time sweep in the quick tier: 0 = the first, n > 0 = the first n, -1 = none (all of them in thorough)
 	AllocC uint64                                 // allocation bound: AllocC*len(in) + AllocK
 	AllocK uint64
 }
@@ -115,7 +118,14 @@ func networkEntries() []*Entry {
 
 	// 1. p2p/pb UnmarshalAndConvert per datatype
 	uac := func(name string, datatype interface{}, protos []proto.Message, loc common.Location) {
-		es = append(es, &Entry{Name: "pb.UnmarshalAndConvert/" + name, Protos: protos, AllocK: 8 << 20, Fn: func(in []byte) (bool, error) {
+		quick := 2
+		if strings.Contains(name, "@") {
+			quick = -1
+		}
+		if name == "ShareView" {
+			quick = 3
+		}
+		es = append(es, &Entry{Name: "pb.UnmarshalAndConvert/" + name, Protos: protos, AllocK: 8 << 20, Quick: quick, Fn: func(in []byte) (bool, error) {
 			var out interface{}
 			err := pb.UnmarshalAndConvert(in, loc, &out, datatype)
 			if err != nil {
@@ -212,7 +222,14 @@ func networkEntries() []*Entry {
 			if nd.name != "zone" && (name == "ShareView" || name == "AuxTemplate") {
 				continue
 			}
-			es = append(es, &Entry{Name: "gossip." + name + "@" + nd.name, Protos: protos, AllocK: 8 << 20, // signature verification: constant ~1.5 MB of big-number work
+			quick := 2
+			if nd.name != "zone" {
+				quick = -1
+			}
+			if name == "ShareView" {
+				quick = 3
+			}
+			es = append(es, &Entry{Name: "gossip." + name + "@" + nd.name, Protos: protos, Quick: quick, AllocK: 8 << 20, // signature verification: constant ~1.5 MB of big-number work
 				Fn: func(in []byte) (bool, error) {
 					res, err := nd.g.Validate(datatype, in)
 					if err != nil {
